@@ -149,8 +149,9 @@ def seeds_for(pid: str) -> list[str]:
                     meta = json.load(open(mp))
                 except ValueError:
                     continue
-                hit = [x for x in meta.get("detected_by", []) if x.startswith(pid + ":")]
-                if meta.get("breaks_property") == pid or hit:
+                # only the changes written to break *this* property are obligations; that a check also notices a change aimed
+                # at another property is recorded in meta.json (tools/seed_check.py) but is not required
+                if meta.get("breaks_property") == pid:
                     out.append(name)
     return out
 
